@@ -129,6 +129,10 @@ def run_campaign(tier, seed):
             ok = os.path.join(w, "ok_%s.ndjson" % fam.replace("+", "_"))
             g = json.loads(d.vh(["gate", "--defs", raw, "--out", ok]).strip().splitlines()[-1])
             res["gate_rejected"] += g["rejected"]
+            # a definition whose build (validity checks included) does not return: parsing it can never terminate
+            for lab in g.get("hung", []):
+                res["findings"].append({"props": ["C01"], "family": fam, "label": lab, "argv_text": [],
+                                        "rec": {"d": 0, "argv": [], "obs": {"outcome": "Hang", "kind": "Command::build does not return (20 s)"}}})
             res["definitions"] += g["accepted"]
             defs_cache[fam] = ok
         defs = defs_cache[fam]
@@ -142,7 +146,17 @@ def run_campaign(tier, seed):
         res["states"] += r.distinct
         res["transitions"] += r.states
         out, div = os.path.join(w, "rep_%s.json" % tag), os.path.join(w, "div_%s.ndjson" % tag)
-        d.vh(["parse-replay", "--defs", defs, "--in", rp, "--out", out, "--div", div, "--threads", 12], timeout=7200)
+        try:
+            d.vh(["parse-replay", "--defs", defs, "--in", rp, "--out", out, "--div", div, "--threads", 12], timeout=7200)
+        except d.ToolError as e:
+            # the harness watchdog: no parse finished for 30 s; the cases in flight are reported and the family is abandoned
+            hang = [l for l in str(e).splitlines() if l.startswith("HANG ")]
+            if not hang:
+                raise
+            res["findings"].append({"props": ["C01"], "family": fam, "label": "?", "argv_text": [hang[0][:400]],
+                                    "rec": {"d": 0, "argv": [], "obs": {"outcome": "Hang", "kind": hang[0][:400]}}})
+            res["families"][tag] = {"states": r.distinct, "replayed": 0, "divergent": 0, "hang": hang[0][:400]}
+            continue
         rep = json.load(open(out))
         res["replayed"] += rep["n"]
         res["divergences"] += rep["mismatch_count"]
